@@ -64,3 +64,16 @@ theorem list_sum_map_lin (k : ℝ) {β : Type} (f g : β → ℝ) (l : List β) 
   | nil => simp
   | cons a l ih => simp only [List.map_cons, List.sum_cons, ih]; ring
 
+
+/-- `np.clip(x, -1, 1)` before `arccos` changes nothing over ℝ (`Real.arccos` already clamps) -/
+theorem arccos_clip (x : ℝ) :
+    Real.arccos (Scalar.min (Scalar.max x (-(Scalar.lit 1))) (Scalar.lit 1)) = Real.arccos x := by
+  simp only [Scalar.min, Scalar.max, Scalar.lit, Scalar.ofNat_real, Nat.cast_one]
+  by_cases h1 : x < -1
+  · have e : Real.arccos x = Real.pi := Real.arccos_of_le_neg_one h1.le
+    simp only [h1, if_true]
+    rw [if_neg (by norm_num), e, Real.arccos_neg_one]
+  · simp only [h1, if_false]
+    by_cases h2 : (1:ℝ) < x
+    · rw [if_pos h2, Real.arccos_one, Real.arccos_of_one_le h2.le]
+    · rw [if_neg h2]
